@@ -14,7 +14,10 @@ IDENT_POOL = ['a', 'b', 'c', 'x', 'y', 'z', 'foo', 'bar', 'i', 'j', 'k', 'n', 'o
               'value', 'result', 'tmp', 'self', 'cb', 'e', 'err', 'key', 'get', 'set', 'of', 'let',
               'static', 'yield', 'async', '$', '_', '$x', '_y', 'a1', 'inx', 'news', 'dox', 'ifx',
               'vars', 'typeofx', 'instanceofx', 'nul', 'tru', 'undefined', 'NaN', 'arguments', 'eval2']
-UNICODE_IDENTS = ['é', 'ñandú', 'λ', 'Привет', '变量', 'aé', 'ª', 'ǅ', 'ʰx', 'xé', 'x٠', 'x‿y', 'ℵ']
+UNICODE_IDENTS = ['é', 'ñandú', 'λ', 'Привет', '变量', 'aé', 'ª', 'ǅ', 'ʰx', 'xé', 'x٠', 'x‿y', 'ℵ',
+                  # a letter after a digit, ZWNJ / ZWJ, unicode escape sequences (7.6)
+                  'x1\u00e9', 'a\u200c', 'a\u200db', '\\u0061bc', 'a\\u0062', 'x\\u0030', '\\u00e9t\\u00e9',
+                  'x\u0301y', '$\u00e9', '_\\u200c']
 NUMBERS = ['0', '1', '2', '7', '10', '42', '100', '255', '1.5', '0.5', '.5', '5.', '1e3', '1E3', '1e+3', '1e-3',
            '1.5e10', '.5e1', '5.e1', '0x0', '0x1F', '0XaB', '0xdeadBEEF', '3.14159', '9007199254740993',
            '0.0', '0e0', '123456789012345678901234567890']
@@ -52,6 +55,7 @@ ALL_FEATURES = [
     'expr:new_args', 'expr:call', 'expr:dot', 'expr:bracket', 'expr:dot_keyword',
     'prim:ident', 'prim:this', 'prim:number', 'prim:string', 'prim:regex', 'prim:true', 'prim:false',
     'prim:null', 'prim:array', 'prim:object', 'prim:funcexpr', 'prim:funcexpr_named', 'prim:group',
+    'group:single', 'group:nested',
     'array:empty', 'array:elision_lead', 'array:elision_mid', 'array:elision_trail', 'array:trailing_comma',
     'array:only_elision', 'object:empty', 'object:ident_key', 'object:string_key', 'object:number_key',
     'object:keyword_key', 'object:getter', 'object:setter', 'object:trailing_comma', 'object:getset_key',
@@ -592,9 +596,13 @@ class Gen(object):
                 self.emit(self.ident())
             self.function_rest()
         else:
-            self.emit('(')
+            # redundant nesting: the parser keeps one grouping node for '((a))'
+            n = 1 if self.choose('group', [('single', 4), ('nested', 1)]) == 'single' else self.rng.choice([2, 2, 3])
+            for _ in range(n):
+                self.emit('(')
             self.expression(False, False)
-            self.emit(')')
+            for _ in range(n):
+                self.emit(')')
 
     def array(self):
         self.emit('[')
